@@ -432,7 +432,10 @@ def smooth_both(ctx, case, s, judge):
     direct = check_array(direct, m, f"spline_smooth(x, y, {s!r})(x)")
     judge(gy, f"Weaver.smooth({s!r})")
     judge(direct, f"spline_smooth(x, y, {s!r})(x)")
-    if not np.array_equal(gy, direct):
+    # both are judged against the statement above; that they agree is expected to rounding only (for s = 0 the
+    # identity may be returned without fitting, and two fits of the same data may stop at slightly different points)
+    sc = float(np.max(np.abs(direct))) + float(np.max(np.abs(gy))) + 1e-300
+    if float(np.max(np.abs(gy - direct))) > 1e-6 * sc + 1e-3 * math.sqrt(max(float(s), 0.0)):
         raise Violation(f"Weaver.smooth({s!r}) differs from spline_smooth(x, y, {s!r}) evaluated at x",
                         detail=dict(maxdiff=float(np.max(np.abs(gy - direct)))))
     return gy
@@ -861,7 +864,8 @@ def _history(ctx, case):
         check_condition(ya, yb, s_val, label)
         if s_val == 0:
             check_close(ya, yb, tol_for(yb, 1e-8), label + " is not the identity")
-        if ya != direct:
+        sc_ = max(max(abs(v) for v in ya), max(abs(v) for v in direct)) + 1e-300
+        if max(abs(a - b) for a, b in zip(ya, direct)) > 1e-6 * sc_ + 1e-3 * math.sqrt(max(float(s_val), 0.0)):
             raise Violation(f"{label} differs from spline_smooth(x, y, {s_val!r})(x) on copies of the series it was "
                             f"applied to", detail=dict(maxdiff=max(abs(a - b) for a, b in zip(ya, direct))))
     for (label, xl, yl, probes, vs, vp), fr in zip(snaps, fresh):
